@@ -339,4 +339,42 @@ example :
   simp [hasType, hasTypes, encode, sszAppend, appendFields, Enc.appendWith, Enc.container,
     Enc.finalize, Ty.isFixed, allFixed, Ty.fixedLen, sumFixedLen, le, decode]
 
+/-! ### consequences used by callers that stream values into one buffer -/
+
+/-- `buf.len()` after `v.ssz_append(&mut buf)` is the old length plus `v.ssz_bytes_len()`: the size
+    prediction is exact for appends to a non-empty buffer too, so `Vec::with_capacity(ssz_bytes_len)`
+    followed by any number of appends never under- or over-reserves -/
+theorem append_length_predicted (t : Ty) (v : Val) (buf : Bytes) (ht : hasType t v = true) :
+    (sszAppend t v buf).length = buf.length + bytesLen t v := by
+  rw [sszAppend_length, bytesLen_eq t v ht]
+
+/-- two consecutive appends grow the buffer by the sum of the two predictions -/
+theorem append_length_two (t u : Ty) (v w : Val) (buf : Bytes) (hv : hasType t v = true)
+    (hw : hasType u w = true) :
+    (sszAppend u w (sszAppend t v buf)).length = buf.length + bytesLen t v + bytesLen u w := by
+  rw [append_length_predicted u w _ hw, append_length_predicted t v _ hv]
+
+/-- the encodings of a fixed-size type form a prefix-free code: no encoding is a proper prefix of
+    another (this is what lets a list of fixed-size items be cut into chunks without delimiters) -/
+theorem fixed_prefix_free (t : Ty) (v w : Val) (extra : Bytes) (hf : t.isFixed = true)
+    (hv : hasType t v = true) (hw : hasType t w = true) (h : encode t v = encode t w ++ extra) :
+    extra = [] := by
+  have h1 := fixed_len_exact t v hf hv
+  have h2 := fixed_len_exact t w hf hw
+  have h3 : (encode t v).length = (encode t w).length + extra.length := by rw [h]; simp
+  have : extra.length = 0 := by omega
+  exact List.eq_nil_of_length_eq_zero this
+
+/-- a decoder of a fixed-size type rejects every proper extension of an accepted input -/
+theorem fixed_decode_rejects_extension (t : Ty) (b extra : Bytes) (v : Val) (hf : t.isFixed = true)
+    (h : decode t b = .ok v) (hne : extra ≠ []) : ∀ w, decode t (b ++ extra) ≠ .ok w := by
+  intro w hw'
+  have h1 := fixed_decode_len t b v hf h
+  have h2 := fixed_decode_len t (b ++ extra) w hf hw'
+  have : extra.length = 0 := by simp at h2; omega
+  exact hne (List.eq_nil_of_length_eq_zero this)
+
+example : hasType (.uint 2) (.uint 513) = true ∧ (sszAppend (.uint 2) (.uint 513) [9, 9]).length = 2 + 2 := by
+  simp [hasType, sszAppend, le]
+
 end Ssz.C07
